@@ -90,6 +90,10 @@ TEXT = {
               'it decodes back to the values it was built from, and the smoothed RTT is never negative (hence never NaN) for every filter state.',
               COMMON_NOTE + ' Out of reach: the cadence inside the real housekeeping loop (two housekeeping periods) and "never non-finite" (Kalman stability over unbounded histories).',
               'deductive verification (Verus) + Kani complete harnesses on the real builders/decoders', 'DESIGN.md 8 C14'),
+    'C19': _t('Verus proves on the real analyze_ip_reload_text (string functions lines/trim/is_empty/IpAddr::from_str uninterpreted but deterministic): the reload is refused iff no line parses; the applied list is exactly the parsable lines in file order; '
+              'Empty is reported iff there is no non-blank line; the first invalid line number is the first non-blank unparsable line. And on SequenceTracker::remove_connection: exactly the records of the removed link are purged, every other slot is untouched.',
+              COMMON_NOTE + ' Out of reach: apply_connection_changes (async, creates sockets; survivors untouched / handle dropped / previous choice forgotten / each new address once) - not covered, stated.',
+              'deductive verification (Verus) of the extracted real function over uninterpreted string functions', 'DESIGN.md 8 C19'),
     'C16': _t('Kani proves on the real LinkCongestionState (built through a cfg-gated constructor) for EVERY pre-state satisfying wf, every observed rate and every clock value, loop-free (complete, no unwinding bound): '
               'target in [100 kbit/s, 200 Mbit/s], floor until an RTT sample exists, lowered only in BackingOff or on entry to Drain, wf inductive; loss latch enters only after ewma > 0.55 held 4 s, clears only < 0.25. '
               'One known finding (re-seed at the floor) is isolated in its own obligation.',
